@@ -178,3 +178,45 @@ Definition opt_case_ok (c : opt_case) : bool :=
 
 Definition opt_mismatches (cs : list opt_case) : list N :=
   map oc_id (filter (fun c => negb (opt_case_ok c)) cs).
+
+(* ---- C10: distributed plan correspondence ------------------------------ *)
+From Verif Require Import Dist.
+
+(* remote sub-queries are compared after removing what only preprocessing adds *)
+Fixpoint strip (e : expr) : expr :=
+  match e with
+  | EStepInv x => strip x
+  | EVec v => EVec (mkVS (vms v) (vorig v) 0 (vat v) (vflt v))
+  | EMat v r => EMat (mkVS (vms v) (vorig v) 0 (vat v) (vflt v)) r
+  | ESubq x => ESubq (strip x)
+  | ECall f xs => ECall f (map strip xs)
+  | EAgg op w g p x => EAgg op w g (match p with Some q => Some (strip q) | None => None end) (strip x)
+  | EBin op b c on ml incl l r => EBin op b c on ml incl (strip l) (strip r)
+  | EUn n x => EUn n (strip x)
+  | EParen x => EParen (strip x)
+  | ECoalesce xs => ECoalesce (map strip xs)
+  | ERemote n x => ERemote n (strip x)
+  | _ => e
+  end.
+
+Fixpoint strip_remotes (e : expr) : expr :=
+  match e with
+  | ERemote n x => ERemote n (strip x)
+  | ECoalesce xs => ECoalesce (map strip_remotes xs)
+  | ECall f xs => ECall f (map strip_remotes xs)
+  | EAgg op w g p x => EAgg op w g p (strip_remotes x)
+  | EBin op b c on ml incl l r => EBin op b c on ml incl (strip_remotes l) (strip_remotes r)
+  | EUn n x => EUn n (strip_remotes x)
+  | EParen x => EParen (strip_remotes x)
+  | EStepInv x => EStepInv (strip_remotes x)
+  | ESubq x => ESubq (strip_remotes x)
+  | _ => e
+  end.
+
+Record dist_case := mkDC { dc_id : N; dc_engines : nat; dc_before : expr; dc_after : expr }.
+
+Definition dist_case_ok (c : dist_case) : bool :=
+  expr_eqb (strip_remotes (opt_distribute (dc_engines c) (dc_before c))) (strip_remotes (dc_after c)).
+
+Definition dist_mismatches (cs : list dist_case) : list N :=
+  map dc_id (filter (fun c => negb (dist_case_ok c)) cs).
